@@ -33,9 +33,9 @@ RULE = (
     "expressions, loop.cycle, returned by another call, argument of filters/tests/calls/macros, if/for/set/with/filter "
     "block/autoescape/do positions, blocks and self.block(), included template, imported macro, child block and "
     "super()) x argument shape (none, positional, keyword, *args, **kwargs) x reachability wrapper (if/else/elif, "
-    "empty loop, loop else, filtered loop) x {default, overriding is_safe_callable} x {sync, async}; all path x "
-    "callable x environment combinations are enumerated, argument shapes and wrappers rotate and are additionally "
-    "drawn by Hypothesis.  Non-trivial = the call site is reached, the environment deems the callable unsafe, and "
+    "empty loop, loop else, filtered loop) x {default, overriding is_safe_callable} x {sync, async}; quick: all path x "
+    "callable x environment combinations are enumerated with rotating argument shapes and wrappers, plus Hypothesis "
+    "draws from the full product; thorough: the full product is enumerated.  Non-trivial = the call site is reached, the environment deems the callable unsafe, and "
     "the callable arrives through at least one level of indirection; distinct = distinct case."
 )
 ASSUMPTIONS = [
@@ -261,8 +261,12 @@ def shards(tier):
 
 def run_shard(spec, ctx):
     rec = core.Rec()
-    core.enum_shard(core.sliced(g.call_core_cases(), ctx.index, ctx.nshards), check_case, ctx, rec=rec)
-    core.hyp_shard(g.call_case(), check_case, ctx, ctx.pick(2500, 60000), rec=rec, tag="call")
+    if ctx.quick:
+        core.enum_shard(core.sliced(g.call_core_cases(), ctx.index, ctx.nshards), check_case, ctx, rec=rec)
+        core.hyp_shard(g.call_case(), check_case, ctx, 2500, rec=rec, tag="call")
+    else:
+        # thorough: the complete product of the grammar (about 2.6e5 programs)
+        core.enum_shard(core.sliced(g.call_full_cases(), ctx.index, ctx.nshards), check_case, ctx, rec=rec)
     return rec
 
 
